@@ -112,6 +112,33 @@ func (e *Exec) parseUnsigned(s []*sym.Term, base int, bitSize int) (*sym.Term, b
 	return val, true, ""
 }
 
+// parseUnsignedBase0 is strconv.ParseUint's base-0 prefix detection (after ParseInt has removed the sign): "0x"/"0X" followed
+// by at least one more byte selects base 16, no leading '0' selects base 10, the single byte "0" is zero. Binary and octal
+// prefixes and digit-separating underscores are outside the model (unsupported, hence INCONCLUSIVE, never a verdict).
+func (e *Exec) parseUnsignedBase0(s []*sym.Term, bitSize int) (*sym.Term, bool, string) {
+	tb := e.tb
+	if len(s) == 0 {
+		return tb.Const(64, 0), false, "invalid syntax"
+	}
+	var us []*sym.Term
+	for _, c := range s {
+		us = append(us, tb.Eq(c, tb.Const(8, '_')))
+	}
+	if e.branch(tb.BOr(us...)) {
+		panic(unsupported("ParseInt/ParseUint base 0 with an underscore"))
+	}
+	if !e.branch(tb.Eq(s[0], tb.Const(8, '0'))) {
+		return e.parseUnsigned(s, 10, bitSize)
+	}
+	if len(s) == 1 {
+		return tb.Const(64, 0), true, ""
+	}
+	if len(s) >= 3 && e.branch(tb.Eq(tb.Or(s[1], tb.Const(8, 0x20)), tb.Const(8, 'x'))) {
+		return e.parseUnsigned(s[2:], 16, bitSize)
+	}
+	panic(unsupported("ParseInt/ParseUint base 0 with a binary or octal prefix"))
+}
+
 func init() {
 	reg := func(name string, f intrinsic) { intrinsics[name] = f }
 	str := func(v Value) Str { return v.(Str) }
@@ -121,7 +148,11 @@ func init() {
 		bits := int(e.mustConcreteInt(a[2], "ParseUint bitSize"))
 		s := str(a[0])
 		if base == 0 {
-			panic(unsupported("ParseUint base 0"))
+			v, ok, msg := e.parseUnsignedBase0(s.B, bits)
+			if !ok {
+				return Tuple{v, e.errorValue(e.strConst("strconv.ParseUint: parsing: " + msg))}
+			}
+			return Tuple{v, Iface{}}
 		}
 		if d, ok := e.decimalOrigin(s.B); ok && base == 10 && !d.signed {
 			// the whole string is the %d rendering of an unsigned integer of this run: parse(print(v)) = v
@@ -162,7 +193,14 @@ func init() {
 		} else if e.branch(tb.Eq(body[0], tb.Const(8, '+'))) {
 			body = body[1:]
 		}
-		v, ok, msg := e.parseUnsigned(body, base, 64)
+		var v *sym.Term
+		var ok bool
+		var msg string
+		if base == 0 {
+			v, ok, msg = e.parseUnsignedBase0(body, 64)
+		} else {
+			v, ok, msg = e.parseUnsigned(body, base, 64)
+		}
 		if !ok {
 			if msg == "value out of range" {
 				lim := new(bigInt).Lsh(bigOne, uint(bits-1))
@@ -188,9 +226,6 @@ func init() {
 	reg("strconv.ParseInt", func(e *Exec, fn *ssa.Function, a []Value) Value {
 		base := int(e.mustConcreteInt(a[1], "ParseInt base"))
 		bits := int(e.mustConcreteInt(a[2], "ParseInt bitSize"))
-		if base == 0 {
-			panic(unsupported("ParseInt base 0"))
-		}
 		return parseInt(e, str(a[0]), base, bits)
 	})
 	reg("strconv.Atoi", func(e *Exec, fn *ssa.Function, a []Value) Value {
